@@ -155,7 +155,9 @@ def job_alg_update(timeout_ms):
 
 
 def job_app_run(timeout_ms):
-    """App.run: one generic iteration of the real loop (while -> if) on a stub algorithm"""
+    """App.run: the real loop is explored by path forking on the symbolic answers of alg.done() (answers become True after
+    three rounds, so every path is finite); on every path the event log must be (done->False, update)* done->True and
+    run() must return _output().  Unrolling bound: 3 rounds (the loop body is the same code in every round)."""
     rec = record(APP, "App.run")[0]
 
     class _Time:
@@ -180,7 +182,7 @@ def job_app_run(timeout_ms):
             pass
     ns = base_ns(time=_Time, tqdm=_Tqdm, linop=None, prox=None, util=None,
                  ADMM=None, ConjugateGradient=None, GradientMethod=None, PowerMethod=None, PrimalDualHybridGradient=None)
-    src.load_module(APP, ns, only=["App"], transforms=(src.while_once,))
+    src.load_module(APP, ns, only=["App"])
     App = ns["App"]
 
     def run():
@@ -188,16 +190,19 @@ def job_app_run(timeout_ms):
             max_iter = Sym(z3.Int("max_iter"))
 
             def __init__(self):
-                self.updates = 0
-                self.done_calls = 0
-                self.d = core.SymBool(z3.Bool("done"))
+                self.log = []
 
             def done(self):
-                self.done_calls += 1
-                return self.d
+                n = sum(1 for e in self.log if e[0] == "d")
+                d = True if n >= 3 else core.SymBool(z3.Bool("done%d" % n))
+                r = bool(d)
+                self.log.append(("d", r))
+                return d
 
             def update(self):
-                self.updates += 1
+                self.log.append(("u", None))
+                if len(self.log) > 20:
+                    raise core.Unsupported("App.run does not terminate on the stub algorithm")
         sentinel = object()
 
         class MyApp(App):
@@ -207,14 +212,19 @@ def job_app_run(timeout_ms):
         app = MyApp(a, show_pbar=core.SymBool(z3.Bool("show_pbar")), record_time=core.SymBool(z3.Bool("record_time")))
         out = app.run()
         return a, out, sentinel
-    results = explore(run)
+    results = explore(run, max_paths=200)
 
     def post(r):
         if r.kind != "return":
             return [("no-exception", [], z3.BoolVal(False))]
         a, out, sentinel = r.value
-        return [("loop-body-runs-only-while-not-done", [a.d.t], z3.BoolVal(a.updates == 0)),
-                ("one-update-per-iteration", [z3.Not(a.d.t)], z3.BoolVal(a.updates == 1)),
+        log = a.log
+        ok_updates = all(ev[0] != "u" or (i > 0 and log[i - 1] == ("d", False)) for i, ev in enumerate(log))
+        ok_continue = all(not (ev == ("d", False)) or (i + 1 < len(log) and log[i + 1][0] == "u") for i, ev in enumerate(log))
+        ok_stop = bool(log) and log[-1] == ("d", True) and all(ev != ("d", True) for ev in log[:-1])
+        return [("every-update-follows-a-done()-that-returned-False", [], z3.BoolVal(ok_updates)),
+                ("after-done()==False-one-update-is-performed", [], z3.BoolVal(ok_continue)),
+                ("loop-ends-at-the-first-done()==True", [], z3.BoolVal(ok_stop)),
                 ("returns-_output()", [], z3.BoolVal(out is sentinel))]
     obs, covers = path_obligations("C15/App.run", results, post, instance="App", fn_record=rec)
     return check_obligations(obs, timeout_ms) + covers
@@ -444,6 +454,8 @@ def probes(tier, seed):
 
 def replay_request(res):
     n = res["name"]
+    if "App.run" in n:
+        return dict(fn="app.run_loop", args=dict())
     if "GerchbergSaxton" in n and "frame" in n:
         return dict(fn="alg.gs_counter", args=dict(max_iter=6))
     if "earlystop/PrimalDualHybridGradient" in n:
